@@ -299,7 +299,9 @@ func (e *Engine) Load() error {
 				if fn == nil {
 					return fmt.Errorf("%s:%d: contract target %s not found after overlay load", ps.File, con.Line, con.Key)
 				}
-				e.contracts[fn] = con
+				if !con.Canary {
+					e.contracts[fn] = con
+				}
 			case "type":
 				e.typeContracts[p.PkgPath+"."+con.Key] = con
 			}
